@@ -6,6 +6,7 @@ import (
 	"sort"
 	"strconv"
 	"strings"
+	"sync"
 	"time"
 )
 
@@ -213,7 +214,7 @@ func shapeExpr(e *Expr, flat bool) string {
 			return "duration " + e.Term.Op + " N" + unit
 		}
 		lit := "N"
-		if strings.HasPrefix(e.Term.Val, `"`) {
+		if isStringLit(e.Term.Val) {
 			lit = "S"
 		} else if strings.TrimLeft(e.Term.Val, "-0123456789.") != "" {
 			lit = "T"
@@ -311,15 +312,15 @@ type oracle struct {
 	hashMod  func(uint64, int) int // portion of a trace id
 }
 
-var reCache = map[string]*regexp.Regexp{}
+var reCache sync.Map // pattern -> *regexp.Regexp
 
 func compileRe(p string, anchored bool) (*regexp.Regexp, error) {
 	key := p
 	if anchored {
 		key = "\x00" + p
 	}
-	if r, ok := reCache[key]; ok {
-		return r, nil
+	if r, ok := reCache.Load(key); ok {
+		return r.(*regexp.Regexp), nil
 	}
 	src := "(?s)" + p
 	if anchored {
@@ -329,16 +330,22 @@ func compileRe(p string, anchored bool) (*regexp.Regexp, error) {
 	if err != nil {
 		return nil, err
 	}
-	reCache[key] = r
+	reCache.Store(key, r)
 	return r, nil
 }
 
+// unquote reads a TraceQL string literal: "..." with backslash escapes, or `...` taken literally (only \` is an escape).
 func unquote(lit string) (string, error) {
 	if strings.HasPrefix(lit, `"`) {
 		return strconv.Unquote(lit)
 	}
+	if strings.HasPrefix(lit, "`") && strings.HasSuffix(lit, "`") && len(lit) >= 2 {
+		return strings.ReplaceAll(lit[1:len(lit)-1], "\\`", "`"), nil
+	}
 	return "", fmt.Errorf("not a string literal: %s", lit)
 }
+
+func isStringLit(v string) bool { return strings.HasPrefix(v, `"`) || strings.HasPrefix(v, "`") }
 
 func cmpNum(op string, a, b float64) bool {
 	switch op {
@@ -391,7 +398,7 @@ func (o *oracle) termHolds(t *Term, s *Span) (bool, error) {
 		return false, fmt.Errorf("oracle: unsupported label %s", t.Label)
 	}
 	v, has := s.attr(key)
-	if strings.HasPrefix(t.Val, `"`) {
+	if isStringLit(t.Val) {
 		lit, err := unquote(t.Val)
 		if err != nil {
 			return false, err
@@ -827,14 +834,23 @@ func (o *oracle) Eval(db *Database, q *Query, p Params, ed edges) (*Expected, er
 	if o.rules.PortionFrom && o.portions > 0 {
 		return o.evalPortions(db, q, p, ed)
 	}
-	if o.rules.EmptyEdge && len(q.Sels) == 1 && q.Sels[0].Expr == nil {
-		return o.evalEmptyEdge(db, q, p)
-	}
-	m, err := o.match(db.Traces, q, p, ed)
+	m, fixed, err := o.matchLimited(db, db.Traces, q, p, ed)
 	if err != nil {
 		return nil, err
 	}
-	return o.expected(db, m, p, ed), nil
+	e := o.expected(db, m, p, ed)
+	e.Fixed = fixed
+	return e, nil
+}
+
+// matchLimited: the matched traces; fixed = the rule in force already applied the limit itself.
+func (o *oracle) matchLimited(db *Database, traces []Trace, q *Query, p Params, ed edges) (*selResult, bool, error) {
+	if o.rules.EmptyEdge && len(q.Sels) == 1 && q.Sels[0].Expr == nil {
+		m, err := o.matchEmptyEdge(traces, q, p)
+		return m, true, err
+	}
+	m, err := o.match(traces, q, p, ed)
+	return m, false, err
 }
 
 func (o *oracle) expected(db *Database, m *selResult, p Params, ed edges) *Expected {
@@ -894,7 +910,7 @@ func (o *oracle) evalPortions(db *Database, q *Query, p Params, ed edges) (*Expe
 		}
 		pp := p
 		pp.From = from
-		all, err := o.match(cand, q, pp, ed)
+		all, _, err := o.matchLimited(db, cand, q, pp, ed)
 		if err != nil {
 			return nil, err
 		}
@@ -920,42 +936,34 @@ func (o *oracle) evalPortions(db *Database, q *Query, p Params, ed edges) (*Expe
 	return e, nil
 }
 
-// evalEmptyEdge mirrors AttrlessConditionPlanner (documented deviant rule EmptyEdge): the `limit` candidate traces
-// are chosen among the traces having a span with From <= ts <= To, ordered by that span's timestamp; their spans are
-// then read with From <= ts < To, so a trace whose only window span sits exactly on To uses up a slot and vanishes.
-func (o *oracle) evalEmptyEdge(db *Database, q *Query, p Params) (*Expected, error) {
+// matchEmptyEdge mirrors AttrlessConditionPlanner (documented deviant rule EmptyEdge): the `limit` candidate traces
+// are chosen by `SELECT DISTINCT trace_id ... WHERE From <= ts <= To ORDER BY timestamp_ns DESC LIMIT n` - DISTINCT
+// runs before ORDER BY, so each trace is ranked by its first stored row in that range (tempo_traces is ordered by
+// (oid, trace_id, timestamp_ns): its oldest span there) - and their spans are then read with From <= ts < To: a trace
+// whose only span in range sits exactly on To uses up a slot and vanishes.
+func (o *oracle) matchEmptyEdge(traces []Trace, q *Query, p Params) (*selResult, error) {
 	type cand struct {
-		t  uint64
+		i  int
 		ts int64
 	}
 	var cs []cand
-	for _, tr := range db.Traces {
-		first := true
-		var best int64
-		for _, s := range tr.Spans {
-			if s.TS >= p.From && s.TS <= p.To && (first || s.TS > best) {
-				best, first = s.TS, false
+	for i, tr := range traces {
+		for _, s := range tr.Spans { // storage order
+			if s.TS >= p.From && s.TS <= p.To {
+				cs = append(cs, cand{i, s.TS})
+				break
 			}
 		}
-		if !first {
-			cs = append(cs, cand{tr.TID, best})
-		}
 	}
-	sort.Slice(cs, func(i, j int) bool { return cs[i].ts > cs[j].ts })
+	sort.SliceStable(cs, func(i, j int) bool { return cs[i].ts > cs[j].ts })
 	if p.Limit > 0 && int64(len(cs)) > p.Limit {
 		cs = cs[:p.Limit]
 	}
 	var sub []Trace
 	for _, c := range cs {
-		sub = append(sub, *db.byID[c.t])
+		sub = append(sub, traces[c.i])
 	}
-	m, err := o.match(sub, q, p, edges{})
-	if err != nil {
-		return nil, err
-	}
-	e := o.expected(db, m, p, edges{})
-	e.Fixed = true
-	return e, nil
+	return o.match(sub, q, p, edges{})
 }
 
 // ---------------------------------------------------------------------------------------------------------
